@@ -97,20 +97,42 @@ def _format_scope(ctx: RuleCtx) -> T.List[T.Tuple[str, ast.FunctionDef]]:
     return out
 
 
-def _accept_class(fn: ast.AST, c: ast.Call) -> T.Optional[str]:
-    """Dotted class name X of `<tree>.accept(X(...))` (through a single-definition local), else None."""
+def _accept_classes(fn: ast.AST, c: ast.Call) -> T.Optional[T.List[str]]:
+    """Dotted class names of `<tree>.accept(X(...))`, in running order: X a class, a single-definition local bound to the
+    instance, or the variable of a `for X in (A, B, ...)` loop over a display of classes (also through a local)."""
     if not (isinstance(c.func, ast.Attribute) and c.func.attr == 'accept' and len(c.args) == 1):
         return None
+
+    def single_def(name: str) -> T.Optional[ast.AST]:
+        defs = [n.value for n in ast.walk(fn) if isinstance(n, (ast.Assign, ast.AnnAssign)) and n.value is not None
+                and any(isinstance(t, ast.Name) and t.id == name for t in (n.targets if isinstance(n, ast.Assign) else [n.target]))]
+        return defs[0] if len(defs) == 1 else None
     a = c.args[0]
     if isinstance(a, ast.Name):
-        defs = [n.value for n in ast.walk(fn) if isinstance(n, ast.Assign) and len(n.targets) == 1 and isinstance(n.targets[0], ast.Name)
-                and n.targets[0].id == a.id]
-        if len(defs) != 1:
+        d = single_def(a.id)
+        if d is None:
             return None
-        a = defs[0]
-    if isinstance(a, ast.Call):
-        return attr_chain(a.func)
-    return None
+        a = d
+    if not isinstance(a, ast.Call):
+        return None
+    f = a.func
+    if isinstance(f, ast.Name):
+        loops = [n for n in ast.walk(fn) if isinstance(n, ast.For) and isinstance(n.target, ast.Name) and n.target.id == f.id
+                 and any(x is c for x in ast.walk(n))]
+        if loops:
+            it = loops[0].iter
+            if isinstance(it, ast.Name):
+                it = single_def(it.id) or it
+            if isinstance(it, (ast.Tuple, ast.List)) and all(attr_chain(e) is not None for e in it.elts):
+                return [attr_chain(e) or '' for e in it.elts]
+            return None
+    nm = attr_chain(f)
+    return [nm] if nm is not None else None
+
+
+def _accept_class(fn: ast.AST, c: ast.Call) -> T.Optional[str]:
+    r = _accept_classes(fn, c)
+    return r[0] if r and len(r) == 1 else None
 
 
 def _passes(ctx: RuleCtx) -> T.List[Pass]:
@@ -121,13 +143,14 @@ def _passes(ctx: RuleCtx) -> T.List[Pass]:
     for qn, fn in _format_scope(ctx):
         for c in ast.walk(fn):
             if isinstance(c, ast.Call) and isinstance(c.func, ast.Attribute) and c.func.attr == 'accept' and len(c.args) == 1:
-                nm = _accept_class(fn, c)
-                if nm is None:
+                nms = _accept_classes(fn, c)
+                if not nms:
                     raise Undecided(f'{qn}: visitor handed to accept() is not a constructor call: {short(c)}')
-                r = ctx.repo.resolve_class(mod, nm)
-                if r is None:
-                    raise Undecided(f'{qn}: visitor class {nm} not found in the repository')
-                found.setdefault(r[1].name, Pass(r[0], r[1].name, r[1]))
+                for nm in nms:
+                    r = ctx.repo.resolve_class(mod, nm)
+                    if r is None:
+                        raise Undecided(f'{qn}: visitor class {nm} not found in the repository')
+                    found.setdefault(r[1].name, Pass(r[0], r[1].name, r[1]))
     return list(found.values())
 
 
@@ -645,7 +668,19 @@ def _lexer_flagged_chars(ctx: RuleCtx) -> T.List[str]:
     out: T.List[str] = []
 
     def mentions_string_tid(test: ast.AST) -> bool:
-        return any(isinstance(c, ast.Constant) and c.value == 'string' for c in ast.walk(test)) and any(isinstance(x, ast.Name) and x.id == 'tid' for x in ast.walk(test))
+        if not any(isinstance(x, ast.Name) and x.id == 'tid' for x in ast.walk(test)):
+            return False
+        if any(isinstance(c, ast.Constant) and c.value == 'string' for c in ast.walk(test)):
+            return True
+        for x in ast.walk(test):             # `tid in SINGLE_LINE_STRINGS`: fold the constant the token id is compared with
+            if isinstance(x, (ast.Name, ast.Attribute)) and norm(x) != 'tid':
+                try:
+                    v = fold_expr(ctx.repo, mod, x)
+                except Exception:
+                    continue
+                if v == 'string' or (isinstance(v, (set, frozenset, tuple, list)) and 'string' in v):
+                    return True
+        return False
     for n in ast.walk(fn):
         if isinstance(n, ast.If) and mentions_string_tid(n.test):
             for m in n.body:
@@ -749,7 +784,10 @@ def r2(ctx: RuleCtx) -> None:
     hz = _plain_hazards(ctx)
     chars = sorted({h.char for h in hz})
     ctx.note(f'hazards of the plain literal form derived from lexer/parser: {[(h.char, h.witness) for h in hz]}')
-    ctx.floor('hazard characters derived', len(chars), 3)
+    if len(chars) < 3:
+        raise Undecided(f'only {len(chars)} hazard character(s) could be derived from the lexer and the escape regex ({chars}); the lexer is written '
+                        'in a form the derivation does not read')
+    ctx.note(f'hazard characters derived: {len(chars)}')
     # built-in positive example: a guard-less rewrite must be found reachable
     demo = ast.parse("def f(self, node):\n    if node.is_multiline and not any(x in node.value for x in ['q']):\n        node.is_multiline = False\n").body[0]
     assert isinstance(demo, ast.FunctionDef)
@@ -1329,11 +1367,19 @@ def _pass_order(ctx: RuleCtx, first: str, second: str) -> bool:
         cfg = CFG(fn)
 
         def acc(cls: str) -> T.List[T.Any]:
-            return cfg.nodes_with_call(lambda c: (_accept_class(fn, c) or '').split('.')[-1] == cls)
+            return cfg.nodes_with_call(lambda c: cls in [x.split('.')[-1] for x in (_accept_classes(fn, c) or [])])
         a, b = acc(first), acc(second)
         if not b:
             continue
         seen_any = True
+        # both run by one `for X in (A, B, ...): tree.accept(X(..))`: the display gives the order within every round
+        both = [c for c in ast.walk(fn) if isinstance(c, ast.Call) and {first, second} <= {x.split('.')[-1] for x in (_accept_classes(fn, c) or [])}]
+        if both:
+            for c in both:
+                order = [x.split('.')[-1] for x in (_accept_classes(fn, c) or [])]
+                ok = ok and order.index(first) < order.index(second) and order.count(second) == 1
+            if all(any(c2 is c for c in both for c2 in ast.walk(n.ast)) for n in b if n.ast is not None):
+                continue
         if not a:
             raise Undecided(f'{qn}: runs {second} but {first} is run elsewhere; the order of the two passes is not decided across functions')
         ok = ok and all(cfg.must_pass(cfg.entry, n, a) and cfg.must_pass(n, n, a) for n in b)
